@@ -16,6 +16,7 @@ import GwcsModel.Drv.C06
 import GwcsModel.Drv.C04
 import GwcsModel.Drv.C05
 import GwcsModel.Drv.C02
+import GwcsModel.Drv.C12
 open Lean Gwcs
 
 def dispatch (j : Json) : Json :=
@@ -23,6 +24,7 @@ def dispatch (j : Json) : Json :=
   | some "C14" => Gwcs.Drv.C14.handle j
   | some "C08" => if jStr (jFieldD j "op" Json.null) == some "cache" then Gwcs.Drv.C08.handle j else Gwcs.Drv.Pipe.handle j
   | some "C19" => Gwcs.Drv.C19.handle j
+  | some "C12" => Gwcs.Drv.C12.handle j
   | some "C02" => Gwcs.Drv.C02.handle j
   | some "C05" => Gwcs.Drv.C05.handle j
   | some "C04" => Gwcs.Drv.C04.handle j
